@@ -604,10 +604,29 @@ func (w *walker) stmt(s ast.Stmt) {
 			w.escape(r)
 		}
 	case *ast.IfStmt:
+		// lock state after the statement = what holds on every path that reaches
+		// the continuation: a branch that ends in return / panic / break /
+		// continue / goto does not reach it (`if full { mu.Unlock(); return }`
+		// leaves mu held afterwards); of two branches that both reach it the
+		// smaller hold count of each lock is kept.
 		w.stmt(x.Init)
 		w.expr(x.Cond)
+		before := copyHeld(w.held)
 		w.block(x.Body)
+		afterBody, bodyEnds := copyHeld(w.held), blockEnds(x.Body)
+		w.held = copyHeld(before)
 		w.stmt(x.Else)
+		afterElse, elseEnds := copyHeld(w.held), x.Else != nil && stmtEnds(x.Else)
+		switch {
+		case bodyEnds && elseEnds:
+			w.held = before
+		case bodyEnds:
+			w.held = afterElse
+		case elseEnds:
+			w.held = afterBody
+		default:
+			w.held = minHeld(afterBody, afterElse)
+		}
 		if id := w.ifTryLock(x); id != "" {
 			w.held[id]++
 		}
@@ -657,6 +676,51 @@ func (w *walker) stmt(s ast.Stmt) {
 			}
 		}
 	}
+}
+
+func copyHeld(h map[string]int) map[string]int {
+	out := map[string]int{}
+	for k, v := range h {
+		out[k] = v
+	}
+	return out
+}
+
+func minHeld(a, b map[string]int) map[string]int {
+	out := map[string]int{}
+	for k, v := range a {
+		if bv := b[k]; bv < v {
+			v = bv
+		}
+		out[k] = v
+	}
+	return out
+}
+
+// blockEnds: control never falls out of the end of the block
+func blockEnds(b *ast.BlockStmt) bool {
+	if b == nil || len(b.List) == 0 {
+		return false
+	}
+	return stmtEnds(b.List[len(b.List)-1])
+}
+
+func stmtEnds(s ast.Stmt) bool {
+	switch x := s.(type) {
+	case *ast.ReturnStmt, *ast.BranchStmt:
+		return true
+	case *ast.BlockStmt:
+		return blockEnds(x)
+	case *ast.IfStmt:
+		return x.Else != nil && blockEnds(x.Body) && stmtEnds(x.Else)
+	case *ast.ExprStmt:
+		if c, ok := x.X.(*ast.CallExpr); ok {
+			if id, ok := c.Fun.(*ast.Ident); ok && id.Name == "panic" {
+				return true
+			}
+		}
+	}
+	return false
 }
 
 // escape: `return x.f` of a map / slice typed field while a lock is held hands
